@@ -81,7 +81,9 @@ where
             &src[..=i]
         } else {
             self.is_eol = false;
-            src
+            // A last line without a line feed can be followed by NUL padding.
+            let end = src.as_bstr().find_byte(NUL).unwrap_or(src.len());
+            &src[..end]
         };
 
         Ok(buf)
